@@ -675,6 +675,17 @@ class C05(Prop):
                 out.append(dict(prog=dict(body=[], calls=[]), raw=src, marker=marker, kind=kind, ns=ns,
                                 loaded=["pa", "pa.s1"] if r >= 0.8 or rng.random() < 0.3 else [],
                                 ext=(kind in G.RAW_EXT_KINDS)))
+        # large inputs ("for any code"): a long if/elif chain and a long operator chain, the unbound name at the far
+        # end.  (CPython compiles these; sizes stay below the depth at which the clean analysis itself hits the
+        # recursion limit: ~330 branches / ~490 terms with the default limit, see C10 D61 for the same limit there.)
+        n1, n2 = rng.choice([200, 260, 280]), rng.choice([220, 300, 340])
+        v = rng.choice(G.VNAMES)
+        chain = "if False:\n    pass\n" + "".join("elif False:\n    pass\n" for _ in range(n1)) + "else:\n    %s\n" % v
+        out.append(dict(prog=dict(body=[], calls=[]), raw=chain, marker=chain.count("\n") + 1, kind="large_elif", ns=[{}], loaded=[], ext=False))
+        summ = "w9 = " + " + ".join(["_K"] * n2) + " + %s\n" % v
+        out.append(dict(prog=dict(body=[], calls=[]), raw=summ, marker=2, kind="large_sum", ns=[{}], loaded=[], ext=False))
+        out.append(dict(prog=dict(body=[], calls=[]), raw="w9 = %s + " % v + " + ".join(["_K"] * n2) + "\n", marker=2, kind="large_sum",
+                        ns=[{}], loaded=[], ext=False))
         return out
 
     @staticmethod
